@@ -461,7 +461,7 @@ SIZES = {
         ),
     },
     "c09": {
-        "quick": dict(n484=5, rl=[(6, 6, 1), (10, 10, 1), (14, 14, 1)], s3=30, s3q=0, gen=4, gq=0),
+        "quick": dict(fixed=26, n484=5, rl=[(6, 6, 1), (10, 10, 1), (14, 14, 1)], s3=30, s3q=0, gen=4, gq=0),
         "thorough": dict(n484=100, rl=[(a, a, 2) for a in (6, 8, 10, 12, 14, 16, 18, 20)] + [(30, 30, 1), (40, 40, 1)], s3=600, s3q=0, gen=50, gq=0),
     },
     "c11": {
@@ -535,6 +535,9 @@ def corpus(prop, tier, seed):
             continue
         qf = os.path.join(gdir, "query_selffulfilling.cl")
         add_file("gen", p, [qf] if "selffulfilling" in p else [], gq // 2)
+    if sz.get("fixed") and len(cases) > sz["fixed"]:  # quick tiers of the costlier checks: a seeded sample of birds/AO/gen
+        keep = set(rng.sample(range(len(cases)), sz["fixed"]))
+        cases[:] = [c for i, c in enumerate(cases) if i in keep]
     # 484 representatives
     d484 = os.path.join(EXAMPLES, "484_inference_relations_representatives")
     kbs = sorted(glob.glob(os.path.join(d484, "kb*.cl")), key=lambda p: int(re.findall(r"kb(\d+)", p)[-1]))
